@@ -1,0 +1,2 @@
+//! BMP framing / session hooks: see `units::bmp_tcp_in::verif_hooks_io`.
+pub use crate::units::bmp_tcp_in::verif_hooks_io::*;
